@@ -72,7 +72,7 @@ CHECKS = {
         technique="Lean 4 proof (proposal-log invariant over the minimize loop; arithmetic on bit_length) + differential execution under option/verdict/clock grids",
         ref="§4 C14"),
     "C01": dict(
-        text="Theorems C01_final_is_last_accepted / C01_check_only / C01_every_later_run / C01_best_is_last_accepted over the driver model (Lithium.run + interesting + Strategy.main + ReductionIterator): for EVERY strategy script (proposals, direct file writes, failures) and EVERY outcome sequence (incl. raising), after every run() the file equals what it held during the last accepting test. Tied to reducer.py/strategies.py by differential execution of real Lithium.run() on disk (scripted strategy+test, 1-3 runs per object; 7 real strategies x 5 splitters under complete verdict trees and random verdicts) against the model.",
+        text="C01_new_job_on_used_object (a Lithium object in ANY state left by earlier runs, testcase re-loaded: the run ends with the file equal to the last version accepted in THIS run; by frame lemmas: the test log is write-only; false before fix e531ec0). Theorems C01_final_is_last_accepted / C01_check_only / C01_every_later_run / C01_best_is_last_accepted over the driver model (Lithium.run + interesting + Strategy.main + ReductionIterator): for EVERY strategy script (proposals, direct file writes, failures) and EVERY outcome sequence (incl. raising), after every run() the file equals what it held during the last accepting test. Tied to reducer.py/strategies.py by differential execution of real Lithium.run() on disk (scripted strategy+test, 1-3 runs per object; 7 real strategies x 5 splitters under complete verdict trees and random verdicts) against the model.",
         note=NOTE + "Candidate construction of the two rewriting strategies is not modelled (iterator-level theorem + monitor).",
         technique="Lean 4 proof (invariant over the event log, induction) + differential execution of the real driver",
         ref="§4 C01"),
